@@ -4377,3 +4377,223 @@ func emptyPredicate(h *ssa.Function, par *ssa.Parameter) bool {
 	}
 	return found
 }
+
+// ---------------------------------------------------------------------------
+// STORE-EVERY-RECORD (R13k, R09h). A loop that rebuilds the node store or the
+// leaf index from a list of records (the records of a stream, the roots handed
+// to the constructor) stores on every iteration: no path from the loop header
+// back to the header goes around the store. Skipping "uninteresting" records
+// (an empty hash) looks harmless because a missing entry reads as the empty
+// hash, but the addition code requires a node at every root position and the
+// restored forest must hold what the original held.
+
+// alwaysStores: some Put on the node store / leaf index in fn dominates every return of fn.
+func alwaysStores(p *Program, fn *ssa.Function) bool {
+	if fn == nil || fn.Blocks == nil {
+		return false
+	}
+	for _, b := range fn.Blocks {
+		for _, in := range b.Instrs {
+			if k, m, _ := storeCall(p, in); k == "" || m != "Put" {
+				continue
+			}
+			all := true
+			for _, ret := range returnsOf(fn) {
+				if !b.Dominates(ret.Block()) {
+					all = false
+				}
+			}
+			if all {
+				return true
+			}
+		}
+	}
+	return false
+}
+
+func checkStoreEveryRecord(p *Program, r *Report, rule string, names []string, floor int) {
+	n := 0
+	for _, name := range names {
+		fn := p.Func(name)
+		if fn == nil {
+			r.MissingAnchor(rule, name, name+" not found")
+			continue
+		}
+		idx := 0
+		for _, b := range fn.Blocks {
+			for _, in := range b.Instrs {
+				what := ""
+				if k, m, _ := storeCall(p, in); k != "" && m == "Put" {
+					what = k + ".Put"
+				} else if c, ok := in.(*ssa.Call); ok {
+					if callee := c.Common().StaticCallee(); callee != nil && callee.Pkg == p.SSA && alwaysStores(p, callee) {
+						what = p.FuncName(callee)
+					}
+				}
+				if what == "" {
+					continue
+				}
+				h := innermostLoopHeader(b)
+				if h == nil {
+					continue
+				}
+				idx++
+				n++
+				key := fmt.Sprintf("%s/%s#%d/every-iteration", name, what, idx)
+				loop := naturalLoop(h)
+				isLatch := map[*ssa.BasicBlock]bool{}
+				for _, l := range latches(h) {
+					isLatch[l] = true
+				}
+				// can a latch be reached from the header inside the loop without passing the store's block?
+				seen := map[*ssa.BasicBlock]bool{b: true}
+				work := []*ssa.BasicBlock{h}
+				var around *ssa.BasicBlock
+				for len(work) > 0 && around == nil {
+					x := work[len(work)-1]
+					work = work[:len(work)-1]
+					if seen[x] || !loop[x] {
+						continue
+					}
+					seen[x] = true
+					if isLatch[x] {
+						around = x
+						break
+					}
+					work = append(work, x.Succs...)
+				}
+				if b == h {
+					around = nil
+				}
+				if around != nil {
+					pos := posOf(p, in)
+					if len(around.Instrs) > 0 {
+						pos = posOf(p, around.Instrs[len(around.Instrs)-1])
+					}
+					r.Violate(rule, key, pos, fmt.Sprintf("an iteration of the loop can go back to the loop header without executing the store at %s: a record (a root, a node, an index entry) that the loop was handed is left out of the rebuilt forest - a missing entry reads as the empty hash, so look-ups agree at first, and the forest then refuses or mis-applies the block that needs the entry", posOf(p, in)), "in "+name)
+				} else {
+					r.Discharge(rule, key, posOf(p, in), "every path from the loop header back to it passes through this store", true)
+				}
+			}
+		}
+	}
+	r.Floor(rule, "stores inside record loops", n, floor)
+}
+
+// ---------------------------------------------------------------------------
+// R03k WORK-LIST-EXHAUSTED. The verification core processes a work list (the
+// targets and the parents it computes) in one loop. The loop may stop with an
+// error at any point, but it may only fall through to the success return when
+// the test that ends it looks at the work list: a cursor of the loop (an
+// integer carried around the loop) or the result of a call that is given such
+// a cursor. An exit on anything else - "all roots have been calculated" -
+// leaves claims in the list that nobody hashed or checked.
+
+func checkWorkListExhausted(p *Program, r *Report, rule string, core *ssa.Function) {
+	name := p.FuncName(core)
+	// the work loop: the outermost loop containing a call that is handed two hashes (the parent-hash computation)
+	var header *ssa.BasicBlock
+	for _, b := range core.Blocks {
+		for _, in := range b.Instrs {
+			c, ok := in.(*ssa.Call)
+			if !ok {
+				continue
+			}
+			nh := 0
+			for _, a := range c.Common().Args {
+				if isHashType(a.Type()) {
+					nh++
+				}
+			}
+			if nh < 2 {
+				continue
+			}
+			for h := innermostLoopHeader(b); h != nil; {
+				header = h
+				// enclosing loop of h, if any
+				var outer *ssa.BasicBlock
+				for _, cand := range core.Blocks {
+					if cand != h && len(latches(cand)) > 0 && naturalLoop(cand)[h] {
+						if outer == nil || naturalLoop(outer)[cand] {
+							outer = cand
+						}
+					}
+				}
+				h = outer
+			}
+		}
+	}
+	if header == nil {
+		r.Undecided(rule, name+"/work-loop", p.Pos(core.Pos()), "cannot identify the loop of the core that computes parent hashes")
+		return
+	}
+	loop := naturalLoop(header)
+	cursor := map[ssa.Value]bool{}
+	for _, in := range header.Instrs {
+		if ph, ok := in.(*ssa.Phi); ok {
+			if bt, ok := ph.Type().Underlying().(*types.Basic); ok && bt.Info()&types.IsInteger != 0 {
+				cursor[ph] = true
+			}
+		}
+	}
+	pred := func(v ssa.Value) bool {
+		if cursor[v] {
+			return true
+		}
+		var call *ssa.Call
+		switch x := v.(type) {
+		case *ssa.Extract:
+			call, _ = x.Tuple.(*ssa.Call)
+		case *ssa.Call:
+			call = x
+		}
+		if call == nil || !loop[call.Block()] {
+			return false
+		}
+		for _, a := range call.Common().Args {
+			if dependsOn(a, func(y ssa.Value) bool { return cursor[y] }) {
+				return true
+			}
+		}
+		return false
+	}
+	succeeds := func(from *ssa.BasicBlock) bool {
+		for b := range reachableBlocks([]*ssa.BasicBlock{from}) {
+			if len(b.Instrs) == 0 {
+				continue
+			}
+			if ret, ok := b.Instrs[len(b.Instrs)-1].(*ssa.Return); ok {
+				ops := retOperands(ret)
+				if ei := errorResultIndex(core.Signature); ei >= 0 && ei < len(ops) && isNilConst(ops[ei]) {
+					return true
+				}
+			}
+		}
+		return false
+	}
+	n := 0
+	var blocks []*ssa.BasicBlock
+	for b := range loop {
+		blocks = append(blocks, b)
+	}
+	sort.Slice(blocks, func(i, j int) bool { return blocks[i].Index < blocks[j].Index })
+	for _, b := range blocks {
+		iff, ok := b.Instrs[len(b.Instrs)-1].(*ssa.If)
+		if !ok {
+			continue
+		}
+		for _, s := range b.Succs {
+			if loop[s] || !succeeds(s) {
+				continue
+			}
+			n++
+			key := fmt.Sprintf("%s/work-loop/exit#%d", name, n)
+			if dependsOn(iff.Cond, pred) {
+				r.Discharge(rule, key, posOf(p, iff), "the test that leaves the work loop towards the success return looks at a cursor of the loop (or at the result of a call that is given one)", true)
+			} else {
+				r.Violate(rule, key, posOf(p, iff), "this test leaves the work loop towards the success return without looking at the work list (no cursor of the loop, no call that is given one): whatever is still in the list - targets with their claimed hashes - is accepted without having been hashed or checked", "in "+name)
+			}
+		}
+	}
+	r.Floor(rule, "exits of the core's work loop that reach the success return", n, 1)
+}
